@@ -9,9 +9,13 @@
 cd "$(dirname "$0")/.."
 pat=${1:-*}
 export VERIF_EVIDENCE_DIR=/dev/shm/recheck-evidence
+# one minimised replay per change is enough here
+export VERIF_MAX_SHRINK=${VERIF_MAX_SHRINK:-1} VERIF_MAX_REPORT=${VERIF_MAX_REPORT:-2}
 for d in seeded/$pat/; do
   name=$(basename "$d")
   [ -f "$d/patch.diff" ] || continue
+  # RECHECK_SKIP_DONE=1: keep results that are already there
+  [ -n "$RECHECK_SKIP_DONE" ] && [ -f "$d/recheck.json" ] && continue
   prop=$(echo "$name" | cut -d- -f1)
   checks="$prop"
   case "$name" in
